@@ -15,9 +15,9 @@ ASSUMPTIONS = ['simulated transport and OS layer (DESIGN.md 2.1) are faithful',
                'K = ceil(synchro_timeout/5) + inactivity_ticks + 12',
                'groups that are not cliques of the reachability/isolation relation, or whose synchronization '
                'condition cannot be met, are not evaluated']
-FLOORS = {'quick': {'groups_evaluated': 150, 'automatic_requests': 200, 'kept_master_evaluations': 10},
+FLOORS = {'quick': {'groups_evaluated': 150, 'automatic_requests': 200, 'kept_master_evaluations': 10, 'host_reboots': 40},
           'thorough': {'groups_evaluated': 3000, 'automatic_requests': 4000, 'kept_master_evaluations': 200,
-                       'rule_evaluations_master_loss': 20}}
+                       'rule_evaluations_master_loss': 20, 'host_reboots': 700}}
 COUNT = {'quick': 360, 'thorough': 8000}
 BUDGET_S = {'quick': 55, 'thorough': 540}
 
@@ -32,14 +32,26 @@ KNOBS = {'n_min': 2, 'n_max': 5, 'late_p': 0.2, 'trigger_p': 0.15,
 SLOW_KNOBS = dict(KNOBS, handshake_skew=[0.0, 0.3, 1.0, 2.0, 3.0], late_p=0.4)
 
 
+# and a family where the HOST of an instance reboots (instances alone on their node): the monotonic clock of the new
+# incarnation starts again near zero, far below the stamps of the messages of the previous one; the restart is slower
+# than the failure detection, so that the peers have declared the instance lost in between
+REBOOT_KNOBS = dict(KNOBS, host_reboot_p=1.0, n_min=3, n_max=4, max_nodes=4, late_p=0.0, trigger_p=0.0,
+                    fixed_script=[[{'kind': 'restart', 'down': (25.0, 60.0), 'gap_ticks': [2, 4]}],
+                                  [{'kind': 'restart', 'down': (25.0, 60.0), 'gap_ticks': [2, 4]},
+                                   {'kind': 'crash_master'}],
+                                  [{'kind': 'restart_master', 'down': (25.0, 60.0), 'gap_ticks': [2, 4]}]])
+REBOOT_COUNT = {'quick': 80, 'thorough': 1500}
+
+
 def plan(tier, seed):
     return [{'seed': seed * 1000003 + i} for i in range(COUNT[tier])] + \
-        [{'seed': seed * 1000003 + 800000 + i, 'family': 'slow-handshake'} for i in range(COUNT[tier] // 4)]
+        [{'seed': seed * 1000003 + 800000 + i, 'family': 'slow-handshake'} for i in range(COUNT[tier] // 4)] + \
+        [{'seed': seed * 1000003 + 700000 + i, 'family': 'host-reboot'} for i in range(REBOOT_COUNT[tier])]
 
 
 def run_case(case):
     mon = MasterMonitor()
-    run = Run(case, SLOW_KNOBS if case.get('family') == 'slow-handshake' else KNOBS, [mon])
+    run = Run(case, {'slow-handshake': SLOW_KNOBS, 'host-reboot': REBOOT_KNOBS}.get(case.get('family'), KNOBS), [mon])
     violations = run.execute()
     return {'violations': violations, 'counters': run.counters,
             'signature': run.shape() if getattr(mon, 'nontrivial', False) else None, 'sample': run.describe()}
